@@ -386,7 +386,7 @@ for acc in ('is_rx_timeout', 'rx_mark', 'set_tx_last_message', 'set_rx_last_mess
     body = m.group(1) if m else ''
     if not m or body.count('self.detail.lock().unwrap()') != 1 or 'try_lock' in body or body.count(';') > 1:
         errors.append('runtime/j1939.rs NetDriverContext::%s is no longer a single lock().unwrap() access' % acc)
-defs.append(('ctx_accessors_single_locked_access', 'bool', 'true', 'runtime/j1939.rs: every NetDriverContext accessor is one self.detail.lock().unwrap() critical section'))
+defs.append(('ctx_accessors_single_locked_access', 'bool', 'false' if any('NetDriverContext::' in e for e in errors) else 'true', 'runtime/j1939.rs: every NetDriverContext accessor is one self.detail.lock().unwrap() critical section'))
 
 # ---- the premise of abstracting from time: the modelled code waits and gives up exactly where the model
 # says it does. Per file, in source order, every timing / readiness-dependent primitive (comments and the
@@ -482,26 +482,53 @@ except Exception as e:
     defs.append(('governor_translated', 'bool', 'false', 'driver/governor.rs next_state does not have the shape the translator understands'))
 if not re.search(r'pub fn reshape\(&self, torque: u16\) -> u16 \{\s*torque\.clamp\(self\.rpm_idle, self\.rpm_max\)\s*\}', _strip_comments(src('driver/governor.rs'))):
     errors.append('driver/governor.rs reshape is no longer torque.clamp(self.rpm_idle, self.rpm_max)')
-defs.append(('governor_reshape_is_clamp', 'bool', 'true', 'driver/governor.rs reshape = torque.clamp(rpm_idle, rpm_max)'))
+defs.append(('governor_reshape_is_clamp', 'bool', 'false' if any('reshape is no longer' in e for e in errors) else 'true', 'driver/governor.rs reshape = torque.clamp(rpm_idle, rpm_max)'))
 
 EXTRA = os.path.join(os.path.dirname(os.path.abspath(__file__)), 'rs2v_extra.py')
 if os.path.exists(EXTRA):
     exec(compile(open(EXTRA).read(), EXTRA, 'exec'))
 
+# ---- a failed extraction breaks the tie of the properties whose models use what could not be re-read,
+# not of everything: each message is attributed to properties by what it is about; the definitions that could
+# be extracted are still written (a model that needs a missing one no longer compiles)
+_SCOPE = [
+    (r'volvo', 'C08'), (r'governor', 'C07 C08'),
+    (r'BANK_PGN|hydraulic|hcu', 'C01 C02 C12 C16'),
+    (r'PROTO_HEADER|Packetize|MESSAGE_TYPE|MESSAGE_SIZE|FrameMessage|Constraint|CONTROL_TYPE|ModuleState|GnssStatus|protocol/|frame\.rs|core/', 'C03 C04 C05 C13 C14 C15 C18'),
+    (r'engine\.rs', 'C06 C08 C11 C12'), (r'Cargo\.lock', 'C02 C06 C11 C12 C17 C20'),
+    (r'driver_factory|vendor\(\)', 'C10 C11 C16 C20'), (r'crate version', 'C14'),
+    (r'interval_decimation', 'C10'), (r'glonax\.conf', 'C10 C16 C20'),
+    (r'director', 'C09 C19'), (r'math/|lin\.rs|actuator|Linear', 'C19'),
+    (r'shape_|NetDriverContext|j1939\.rs', 'C01 C08 C10'),
+    (r'joystick|gamepad|glonax-input|glonax-control|input\.rs', 'C18'),
+    (r'server\.rs', 'C03 C04 C05 C14'), (r'authority', 'C01 C02 C06 C10 C11 C15 C16 C20'),
+    (r'net\.rs|can\.rs', 'C06 C17 C15 C16'), (r'runtime/mod', 'C15 C16'),
+]
 if errors:
     print('rs2v: BROKEN TIE')
     for e in errors:
-        print('  ' + e)
-    sys.exit(1)
+        props = set()
+        for pat, ps in _SCOPE:
+            if re.search(pat, e):
+                props |= set(ps.split())
+        print('  [%s] %s' % (' '.join(sorted(props)) if props else 'ALL', e))
 
 lines = ['(* GENERATED by tools/rs2v.py from the Rust source on every run. Do not edit. *)',
          'From Coq Require Import ZArith List String.', 'Import ListNotations.', 'Local Open Scope Z_scope.', '']
 for name, ty, val, origin in defs:
     lines.append('(* %s *)' % origin)
     lines.append('Definition %s : %s := %s.' % (name, ty, val))
-txt = '\n'.join(lines) + '\n'
 os.makedirs(outdir, exist_ok=True)
 p = os.path.join(outdir, 'Consts.v')
+# what could not be re-extracted keeps its last known value (the committed file), so that the model still
+# builds and the search for a failing input can run; the tie of the properties concerned is reported broken above
+if errors and os.path.exists(p):
+    have = set(n for n, _, _, _ in defs)
+    for m_ in re.finditer(r'^Definition (\w+) : (.*?) := (.*)\.$', open(p).read(), re.M):
+        if m_.group(1) not in have:
+            lines.append('(* STALE: not re-extracted in this run *)')
+            lines.append('Definition %s : %s := %s.' % (m_.group(1), m_.group(2), m_.group(3)))
+txt = '\n'.join(lines) + '\n'
 if not os.path.exists(p) or open(p).read() != txt:
     open(p, 'w').write(txt)
 for n_ in notes:
